@@ -28,6 +28,7 @@ import SwcVerif.Model.AlgoRunNodeBranch
 import SwcVerif.Model.AlgoRunMst
 import SwcVerif.Model.AlgoRunParse
 import SwcVerif.Model.AlgoRunCut
+import SwcVerif.Model.AlgoRunRepair
 import SwcVerif.Model.Assemble
 
 def dispatch (op : String) (args : List String) : String :=
@@ -74,6 +75,9 @@ def dispatch (op : String) (args : List String) : String :=
   | "gmst" => AlgoRun.handleMst args
   | "gparse" => AlgoRun.handleParse args
   | "gtosubtree" | "gcutenter" | "gcutdepth" | "gcutleave" | "gcutleaveset" | "gcuttype" | "gcutorder" => AlgoRun.handleCut op args
+  | "gsingleroot" => AlgoRun.handleSingleRoot args
+  | "gnearest" => AlgoRun.handleNearest args
+  | "greadfix" => AlgoRun.handleReadFix args
   | "asm" => Asm.handle args
   | "gasm" => AlgoRun.handleAsm args
   | "swcline" => SwcText.handleLine args
